@@ -42,8 +42,14 @@ pub fn h64(key: u64, parts: &[&[u8]]) -> u64 {
 
 pub struct NullHeader;
 impl HeaderKey for NullHeader {
-    fn decrypt(&self, _: usize, _: &mut [u8]) {}
-    fn encrypt(&self, _: usize, _: &mut [u8]) {}
+    // (no masking, but like every real header key the sample behind the longest possible packet number is
+    // read: a caller that hands over too short a packet fails here as it would with AES or ChaCha)
+    fn decrypt(&self, pn_offset: usize, packet: &mut [u8]) {
+        let _sample = &packet[pn_offset + 4..pn_offset + 4 + 16];
+    }
+    fn encrypt(&self, pn_offset: usize, packet: &mut [u8]) {
+        let _sample = &packet[pn_offset + 4..pn_offset + 4 + 16];
+    }
     fn sample_size(&self) -> usize {
         16
     }
